@@ -71,10 +71,15 @@ def resolve1d(md, st_, kind, inlet, outlet, lowmach=False):
         # (solves: rest or M >= 3e-3; the operator-level checks also cover 3e-5 <= M < 3e-3 with the conditioning allowance _lowmach_slack)
         if lowmach and st_.get("lowmach") is not None:
             m = math.copysign(st_["lowmach"], m if m != 0 else 1.0)
+        elif st_.get("nearsonic") is not None:
+            m = math.copysign(st_["nearsonic"], m if m != 0 else 1.0)            # high subsonic: 0.85 .. 0.999
         else:
             m = 0.95 * m / 3.0 if abs(m) >= 0.01 else 0.0
     elif kind == "supersonic":
-        m = math.copysign(1.05 + 2.0 * abs(m) / 3.0, m if m != 0 else 1.0)
+        if st_.get("nearsonic") is not None:
+            m = math.copysign(2.0 - st_["nearsonic"], m if m != 0 else 1.0)      # low supersonic: 1.001 .. 1.15
+        else:
+            m = math.copysign(1.05 + 2.0 * abs(m) / 3.0, m if m != 0 else 1.0)
     s["mach"] = m
     if name == "shallowwater":
         h = math.exp(s["lnh"])
@@ -123,7 +128,8 @@ def _state1d(md):
     if name == "shallowwater":
         return st.builds(lambda h, m: dict(lnh=h, mach=m), ln, mach)
     low = st.one_of(st.none(), st.none(), st.none(), gen.logf(-4.5, -2.0))       # occasionally a very low subsonic Mach number (operator-level checks only)
-    return st.builds(lambda r, p, m, lo: dict(lnrho=r, lnp=p, mach=m, lowmach=lo), ln, ln, mach, low)
+    near = st.one_of(st.none(), st.none(), st.none(), st.sampled_from([0.85, 0.9, 0.95, 0.97, 0.99, 0.999]), gen.f(0.85, 0.999))     # occasionally transonic
+    return st.builds(lambda r, p, m, lo, ns: dict(lnrho=r, lnp=p, mach=m, lowmach=lo, nearsonic=ns), ln, ln, mach, low, near)
 
 
 def _kinds(md):
@@ -327,6 +333,8 @@ def resolve2d(g, st_, kind, other, outlet_rest, lowmach=False):
         return s, dict(left=sym, right=sym, bottom=sym, top=sym)
     sub = kind.startswith("subsonic")
     mm = (0.95 * m / 3.0 if m >= 0.01 else 0.0) if sub else 1.05 + 2.0 * m / 3.0
+    if st_.get("nearsonic") is not None and kind != "supersonic-angled":
+        mm = st_["nearsonic"] if sub else 2.0 - st_["nearsonic"]
     if sub and lowmach and st_.get("lowmach") is not None:
         mm = st_["lowmach"]
     s["mach"] = mm
@@ -350,9 +358,10 @@ def resolve2d(g, st_, kind, other, outlet_rest, lowmach=False):
 
 def _cfg2d(nmax, solve, tier):
     ln = st.one_of(gen.f(-4.6, 4.6), st.just(0.0))
-    ust = st.builds(lambda r, p, m, a, lo: dict(lnrho=r, lnp=p, mach=m, angle=a, lowmach=lo), ln, ln, st.one_of(gen.f(0, 3), st.sampled_from([0.0, 0.5, 1.0, 2.0])),
+    ust = st.builds(lambda r, p, m, a, lo, ns: dict(lnrho=r, lnp=p, mach=m, angle=a, lowmach=lo, nearsonic=ns), ln, ln, st.one_of(gen.f(0, 3), st.sampled_from([0.0, 0.5, 1.0, 2.0])),
                     st.one_of(gen.f(-math.pi, math.pi), st.sampled_from([0.0, math.pi / 2, math.pi / 4, -math.pi / 2, math.pi])),
-                    st.one_of(st.none(), st.none(), st.none(), gen.logf(-4.5, -2.0)))
+                    st.one_of(st.none(), st.none(), st.none(), gen.logf(-4.5, -2.0)),
+                    st.one_of(st.none(), st.none(), st.none(), st.sampled_from([0.85, 0.9, 0.95, 0.97, 0.99, 0.999]), gen.f(0.85, 0.999)))
     ex, im = cases.integrator_names()
     base = st.builds(lambda md, me, num, fl, s, kind, oth, orest: dict(model=md, mesh2d=me, num=num, flux=fl, ustate=s, kind=kind, other=oth, outlet_rest=orest),
                      gen.model_euler2d(), gen.mesh2d(1, nmax), gen.num2d_any(), st.sampled_from(cases.flux_names(dict(name="euler2d"))), ust, st.sampled_from(KINDS2D),
